@@ -4,8 +4,8 @@ package harness
 // with a scripted public-IP fetcher and reverse-DNS resolver.
 
 import (
-	"encoding/json"
 	"context"
+	"encoding/json"
 	"errors"
 	"fmt"
 	"net"
@@ -81,51 +81,52 @@ func (p ReqParams) ToQuery() string {
 type DNSScript struct {
 	Names   []string `json:"names,omitempty"`
 	Err     bool     `json:"err,omitempty"`
+	Timeout bool     `json:"timeout,omitempty"` // with Err: the failure is a *net.DNSError with IsTimeout
 	DelayMs int      `json:"delay_ms,omitempty"`
 	Hang    bool     `json:"hang,omitempty"` // block until the lookup context ends
 }
 
 type Request struct {
-	P          ReqParams            `json:"params"`
-	HTTP       bool                 `json:"http,omitempty"`
-	RawQuery   string               `json:"raw_query,omitempty"` // overrides ToQuery when set
-	Scripts    []FlowScript         `json:"scripts"`
-	Faults     []Fault              `json:"faults,omitempty"`
-	SackSrv    bool                 `json:"sack_srv,omitempty"` // start a loopback listener at Hostname and use its port
-	Sack       SackCfg              `json:"sack"`
-	Fetcher    string               `json:"fetcher,omitempty"` // "" ok | error | slow | hang
+	P        ReqParams    `json:"params"`
+	HTTP     bool         `json:"http,omitempty"`
+	RawQuery string       `json:"raw_query,omitempty"` // overrides ToQuery when set
+	Scripts  []FlowScript `json:"scripts"`
+	Faults   []Fault      `json:"faults,omitempty"`
+	SackSrv  bool         `json:"sack_srv,omitempty"` // start a loopback listener at Hostname and use its port
+	Sack     SackCfg      `json:"sack"`
+	Fetcher  string       `json:"fetcher,omitempty"` // "" ok | error | slow | hang
 	// ReadAfter: the caller keeps reading the returned document (serialises it at once and again 5 s later);
 	// ChangedAfterReturn reports a document that was still being written to after the call had returned
-	ReadAfter bool `json:"read_after,omitempty"`
-	DNS        map[string]DNSScript `json:"dns,omitempty"`
-	DNSDefault DNSScript            `json:"dns_default"`
-	CancelAtUs int64                `json:"cancel_at_us,omitempty"`
-	EchoBase   uint32               `json:"echo_base,omitempty"`
-	PktIDBase  uint32               `json:"pktid_base,omitempty"`
-	Noise      []NoiseItem          `json:"noise,omitempty"`
-	Flood      *FloodSpec           `json:"flood,omitempty"`
-	RealTime   bool                 `json:"real_time,omitempty"` // run on the real clock (no bubble)
-	Providers  map[string][]ProviderStep `json:"providers,omitempty"` // when set, the real PublicIPFetcher runs over a scripted transport
-	ProviderDefault []ProviderStep  `json:"provider_default,omitempty"`
+	ReadAfter       bool                      `json:"read_after,omitempty"`
+	DNS             map[string]DNSScript      `json:"dns,omitempty"`
+	DNSDefault      DNSScript                 `json:"dns_default"`
+	CancelAtUs      int64                     `json:"cancel_at_us,omitempty"`
+	EchoBase        uint32                    `json:"echo_base,omitempty"`
+	PktIDBase       uint32                    `json:"pktid_base,omitempty"`
+	Noise           []NoiseItem               `json:"noise,omitempty"`
+	Flood           *FloodSpec                `json:"flood,omitempty"`
+	RealTime        bool                      `json:"real_time,omitempty"` // run on the real clock (no bubble)
+	Providers       map[string][]ProviderStep `json:"providers,omitempty"` // when set, the real PublicIPFetcher runs over a scripted transport
+	ProviderDefault []ProviderStep            `json:"provider_default,omitempty"`
 }
 
 type ReqOutcome struct {
-	Res        *result.Results
-	Err        error
-	Panic      string
-	Deadlock   string
-	Wire       *Wire
-	World      *NetWorld
-	Elapsed    time.Duration
-	HTTPStatus int
-	Body       []byte
-	FetchCalls int
-	DNSCalls   map[string]int
-	SackAccept int
+	Res                 *result.Results
+	Err                 error
+	Panic               string
+	Deadlock            string
+	Wire                *Wire
+	World               *NetWorld
+	Elapsed             time.Duration
+	HTTPStatus          int
+	Body                []byte
+	FetchCalls          int
+	DNSCalls            map[string]int
+	SackAccept          int
 	GorBefore, GorAfter int
-	Port       int // effective port (after SackSrv)
-	RT         *scriptedRT
-	ChangedAfterReturn string
+	Port                int // effective port (after SackSrv)
+	RT                  *scriptedRT
+	ChangedAfterReturn  string
 }
 
 type stubFetcher struct {
